@@ -1,2 +1,206 @@
-// Package c17: implementation-side ops, generators and oracles for property C17.
+// Package c17: implementation-side ops, generators and oracles for property C17 (concurrent
+// keystore writers never lose each other's updates).
+//
+// The tie is trace validation: real key-store handles run over an instrumented back end that
+// records the global order of back-end calls; the recorded order is the schedule the Lean model
+// (KeystoreSec/Concurrent.lean, the model the all-schedules theorems are about) replays, and every
+// call, every value read or written, every operation outcome and the final rings must coincide.
 package c17
+
+import (
+	"fmt"
+
+	"verifharness/internal/core"
+)
+
+func init() { core.RegisterProp("C17", run) }
+
+// exhaustive runs every schedule of the scenario under the deterministic scheduler.
+func exhaustive(r *core.Run, sc scenario, tag string, limit int) int {
+	script := []int{}
+	n := 0
+	for {
+		o := runScenario(sc, script, true)
+		n++
+		r.Begin(sc.key()+fmt.Sprint(script), len(o.trace) > 0, "mode:"+tag)
+		r.Diff(o.line, o.impl)
+		judge(r, o)
+		if o.deadlock {
+			return n
+		}
+		// next script in depth-first order
+		full := make([]int, len(o.factors))
+		copy(full, script)
+		i := len(full) - 1
+		for i >= 0 && full[i]+1 >= o.factors[i] {
+			i--
+		}
+		if i < 0 || (limit > 0 && n >= limit) {
+			return n
+		}
+		script = append(full[:i:i], full[i]+1)
+	}
+}
+
+var opAlphabet = []opSpec{
+	{kind: 'A'}, {kind: 'C', seq: 1}, {kind: 'C', seq: 2}, {kind: 'S', seq: 1, st: 2}, {kind: 'S', seq: 1, st: 4},
+	{kind: 'S', seq: 2, st: 5}, {kind: 'D', seq: 1}, {kind: 'D', seq: 2}, {kind: 'S', seq: 1, st: 3},
+}
+
+func genOps(rd *core.Rand, n int, nextData *int, maxSeq int) []opSpec {
+	var ops []opSpec
+	for i := 0; i < n; i++ {
+		o := core.Pick(rd, opAlphabet)
+		switch o.kind {
+		case 'A':
+			o.data = *nextData
+			*nextData++
+		case 'C', 'D':
+			o.seq = 1 + rd.Intn(maxSeq)
+		case 'S':
+			o.seq = 1 + rd.Intn(maxSeq)
+			o.st = 1 + rd.Intn(6)
+		}
+		ops = append(ops, o)
+	}
+	return ops
+}
+
+func genRing(rd *core.Rand) []initKey {
+	n := rd.Intn(3)
+	var ks []initKey
+	for i := 0; i < n; i++ {
+		ks = append(ks, initKey{state: core.Pick(rd, []int{1, 1, 2, 3, 4, 5}), current: rd.Chance(40)})
+	}
+	return ks
+}
+
+func genScenario(rd *core.Rand) scenario {
+	sc := scenario{}
+	nr := 1 + rd.Intn(2)
+	for i := 0; i < nr; i++ {
+		sc.rings = append(sc.rings, genRing(rd))
+	}
+	nt := 2 + rd.Intn(2)
+	next := 10
+	for i := 0; i < nt; i++ {
+		t := threadSpec{path: rd.Intn(nr)}
+		if rd.Chance(25) {
+			for k := 0; k < 1+rd.Intn(3); k++ {
+				t.ops = append(t.ops, opSpec{kind: 'R'})
+			}
+		} else {
+			t.ops = genOps(rd, 1+rd.Intn(3), &next, 4)
+		}
+		sc.threads = append(sc.threads, t)
+	}
+	return sc
+}
+
+// regression corpus: the races the property is about
+func corpus() []scenario {
+	a := func(d int) opSpec { return opSpec{kind: 'A', data: d} }
+	return []scenario{
+		// two writers add to the same empty ring with the same stale snapshot (seqnum collision)
+		{rings: [][]initKey{{}}, threads: []threadSpec{{0, []opSpec{a(10)}}, {0, []opSpec{a(11), a(12)}}}},
+		// rotate = AddKey + SetCurrent by two handles
+		{rings: [][]initKey{{{1, true}}}, threads: []threadSpec{{0, []opSpec{a(10), {kind: 'C', seq: 2}}}, {0, []opSpec{a(11), {kind: 'C', seq: 2}}}}},
+		// destroy races with a state change of the same key
+		{rings: [][]initKey{{{1, false}, {2, true}}}, threads: []threadSpec{{0, []opSpec{{kind: 'D', seq: 1}}}, {0, []opSpec{{kind: 'S', seq: 1, st: 2}}}, {0, []opSpec{{kind: 'R'}, {kind: 'R'}}}}},
+		// writers on different rings and a reader
+		{rings: [][]initKey{{{2, true}}, {}}, threads: []threadSpec{{0, []opSpec{a(10)}}, {1, []opSpec{a(11)}}, {1, []opSpec{{kind: 'R'}}}}},
+		// same on the directory back end
+		{dir: true, rings: [][]initKey{{}}, threads: []threadSpec{{0, []opSpec{a(10), {kind: 'C', seq: 1}}}, {0, []opSpec{a(11), {kind: 'D', seq: 1}}}}},
+	}
+}
+
+func run(r *core.Run) {
+	r.Rule = "scenarios = initial rings (0-2 keys in assorted states) + 2-3 handles (writers with 1-3 operations from add/setCurrent/setState/destroy, or readers) on the same or different rings over one shared back end; " +
+		"modes: exhaustive (every interleaving of back-end calls under a deterministic scheduler), scripted (random schedule), free (real goroutines), procs (one OS process per handle on a shared directory), v1-shared (8 goroutines reading through one v1 handle with cache size 1 / unlimited / off); " +
+		"a case is non-trivial when at least one back-end call was made; distinct by scenario + schedule"
+	rd := r.Rand.Fork()
+	schedules := 0
+
+	// 0. deterministic witness of the cache aliasing defect (repo-patches/05)
+	runV1Aliasing(r)
+	// 1. corpus, every schedule
+	for _, sc := range corpus() {
+		schedules += exhaustive(r, sc, "corpus-exhaustive", 0)
+	}
+
+	// 2. exhaustive: two writers, every pair of short programs over the alphabet, every schedule
+	pairs := 0
+	next := 10
+	progs := [][]opSpec{}
+	for _, o := range opAlphabet {
+		progs = append(progs, []opSpec{o})
+	}
+	nTwo := r.N(6, 40)
+	for i := 0; i < nTwo; i++ {
+		progs = append(progs, genOps(rd, 2, &next, 3))
+	}
+	inits := [][]initKey{{}, {{1, false}}, {{2, true}, {1, false}}}
+	budget := r.N(250, 6000)
+	for pairs < budget {
+		p1 := append([]opSpec{}, core.Pick(rd, progs)...)
+		p2 := append([]opSpec{}, core.Pick(rd, progs)...)
+		d := 10
+		for i := range p1 {
+			if p1[i].kind == 'A' {
+				p1[i].data = d
+				d++
+			}
+		}
+		for i := range p2 {
+			if p2[i].kind == 'A' {
+				p2[i].data = d
+				d++
+			}
+		}
+		sc := scenario{rings: [][]initKey{core.Pick(rd, inits)}, threads: []threadSpec{{0, p1}, {0, p2}}}
+		n := exhaustive(r, sc, "exhaustive", 0)
+		schedules += n
+		pairs += n
+	}
+
+	// 3. random scenarios under a random script, and free-running goroutines
+	n := r.N(120, 3000)
+	for i := 0; i < n; i++ {
+		sc := genScenario(rd)
+		sc.dir = rd.Chance(20)
+		script := make([]int, 12)
+		for k := range script {
+			script[k] = rd.Intn(4)
+		}
+		o := runScenario(sc, script, true)
+		r.Begin(sc.key()+fmt.Sprint(script), len(o.trace) > 0, "mode:scripted")
+		r.Diff(o.line, o.impl)
+		judge(r, o)
+	}
+	n = r.N(120, 3000)
+	for i := 0; i < n; i++ {
+		sc := genScenario(rd)
+		sc.dir = rd.Chance(30)
+		o := runScenario(sc, nil, false)
+		r.Begin(sc.key()+fmt.Sprintf("free%d", i), len(o.trace) > 0, "mode:free")
+		r.Diff(o.line, o.impl)
+		judge(r, o)
+	}
+	// 4. separate processes sharing one directory back end (flock between processes)
+	n = r.N(4, 150)
+	for i := 0; i < n; i++ {
+		sc := genScenario(rd)
+		sc.dir = true
+		o := runProcs(sc)
+		r.Begin(sc.key()+fmt.Sprintf("procs%d", i), len(o.trace) > 0, "mode:procs")
+		r.Diff(o.line, o.impl)
+		judge(r, o)
+	}
+	// 4b. two concurrent imports of the same new ring, every schedule
+	runImportRace(r)
+	// 5. one v1 handle shared by many goroutines
+	runV1Shared(r)
+	r.Extra["schedules_enumerated"] = schedules
+	r.Exhaustive = true
+	r.Note("exhaustive part: every interleaving (at back-end-call granularity) of each enumerated two-writer scenario was executed on the real key store and replayed through the model")
+}
